@@ -490,6 +490,7 @@ func runKvsConc(seed int64, nclients, nops int, out string) {
 	var mu sync.Mutex
 	var hist []ev
 	var wg sync.WaitGroup
+	var lastVal [4]atomic.Value
 	for c := 0; c < nclients; c++ {
 		wg.Add(1)
 		crng := rand.New(rand.NewSource(rng.Int63()))
@@ -498,7 +499,7 @@ func runKvsConc(seed int64, nclients, nops int, out string) {
 			for i := 0; i < nops; i++ {
 				id := 100 + c*1000 + i
 				e := ev{client: c}
-				if crng.Intn(2) == 0 {
+				if crng.Intn(3) == 0 {
 					k := uint64(513 + crng.Intn(4))
 					e.call = fmt.Sprintf("KG %d %d", id, k)
 					e.inv = atomic.AddInt64(&clock, 1)
@@ -520,9 +521,9 @@ func runKvsConc(seed int64, nclients, nops int, out string) {
 						k := uint64(513 + (crng.Intn(4)+j)%4)
 						v := make([]byte, 4096)
 						v[0], v[1], v[2] = byte(id), byte(id>>8), byte(j)
-						if crng.Intn(2) == 0 {
-							// values from a set of two: a put often repeats what the key already holds
-							v[0], v[1], v[2] = byte(crng.Intn(2)), 0, 0
+						if lv, ok := lastVal[k-513].Load().([]byte); ok && crng.Intn(3) == 0 {
+							// repeat what the key (most probably) holds right now, next to fresh values for the other keys
+							copy(v, lv)
 						}
 						pairs = append(pairs, kvs.KVPair{Key: k, Val: v})
 						fmt.Fprintf(&sb, " %d %s", k, hexs(v[:8]))
@@ -537,6 +538,9 @@ func runKvsConc(seed int64, nclients, nops int, out string) {
 						}()
 						ok := store.MultiPut(pairs)
 						e.rep = fmt.Sprintf("KR %d -", b2i(ok))
+						for _, p := range pairs {
+							lastVal[p.Key-513].Store(p.Val)
+						}
 					}()
 				}
 				e.ret = atomic.AddInt64(&clock, 1)
